@@ -111,7 +111,7 @@ def render(events, results, header="from nada_dsl import *\n", main_name="nada_m
             elif op == "innerProduct":
                 s = f'{g("a")}.inner_product({g("b")})'
             elif op == "call":
-                s = f'{g("f")}({", ".join(f"r{x}" for x in c["args"])})'
+                s = f'{g("f")}(' + ", ".join([f"r{x}" for x in c["args"]] + [f"{n}=r{x}" for n, x in c.get("kw", [])]) + ")"
             else:
                 s = None
             if s is not None:
